@@ -101,6 +101,30 @@ Proof.
 Qed.
 Print Assumptions direct_task_returns_value.
 
+(* Parallelized groups with a REPEATED argument set.  task.py distribute_calls (sync branch, read by the
+   translator) makes every element of the list its own fresh invocation; so a member that occurs twice runs
+   its body for each occurrence, in sync mode exactly as distributed - the guarded equivalence above needs
+   this fact for its group case, and it is load-bearing: were the sync branch to hand the group the (result
+   caching) invocation of the earlier identical element, [p; p] would run p once in sync mode, twice distributed
+   with the same value. *)
+Theorem generated_group_fact : gen_sync_group_own_invocations = true.
+Proof. exact gen_group_own. Qed.
+Print Assumptions generated_group_fact.
+
+Theorem repeated_group_member_runs_per_element : forall tr p i,
+  (succeeds p = true ->
+   count i (snd (sync_stmt (SGroup (PCons p (PCons p PNil))))) = 2 * count i (log (sync_prog p))) /\
+  count i (snd (dist_stmt tr (SGroup (PCons p (PCons p PNil))))) = 2 * count i (log (dist_prog tr p)).
+Proof. exact (fun tr p i => conj (repeated_member_sync p i) (repeated_member_dist tr p i)). Qed.
+Print Assumptions repeated_group_member_runs_per_element.
+
+Theorem shared_group_invocation_refuted :
+  gen_sync_group_own_invocations = false ->
+  fst (sync_stmt g_repeated) = fst (dist_stmt id_tr g_repeated) /\
+  count 2 (snd (sync_stmt g_repeated)) = 1 /\ count 2 (snd (dist_stmt id_tr g_repeated)) = 2.
+Proof. exact sharing_breaks_counts. Qed.
+Print Assumptions shared_group_invocation_refuted.
+
 (* The distributed retry bookkeeping is not atomic: as long as the generated fact says RETRY is published
    before the counter is incremented, the schedule "re-run before the increment lands" executes an
    always-raising body max_retries+2 times (known finding retry-race:stale-counter); with the increment
